@@ -75,6 +75,61 @@ func dumpQueue(f *txfile.File, ps int) string {
 	return sb.String()
 }
 
+// chainPageFree walks the queue's page list from the head position of the
+// queue header and reports a page that is free according to the allocator
+// snapshot of the file (or lies behind the data end marker).
+func chainPageFree(f *txfile.File, ps int) (page uint64, walked int, bad bool) {
+	defer func() { recover() }() // damaged lists are the business of the event oracle
+	tx, err := f.BeginReadonly()
+	if err != nil {
+		return 0, 0, false
+	}
+	defer tx.Close()
+	rp, err := tx.RootPage()
+	if err != nil || rp == nil {
+		return 0, 0, false
+	}
+	rb, err := rp.Bytes()
+	if err != nil || len(rb) < 60 {
+		return 0, 0, false
+	}
+	snap := f.VerifSnapshot()
+	free := func(id uint64) bool {
+		if txfile.PageID(id) >= snap.DataEnd && txfile.PageID(id) >= snap.MetaEnd {
+			return true
+		}
+		for _, r := range snap.DataFree {
+			if txfile.PageID(id) >= r.ID && txfile.PageID(id) < r.ID+txfile.PageID(r.Count) {
+				return true
+			}
+		}
+		return false
+	}
+	page = binary.LittleEndian.Uint64(rb[4:]) / uint64(ps)
+	tail := binary.LittleEndian.Uint64(rb[20:]) / uint64(ps)
+	if o := binary.LittleEndian.Uint64(rb[20:]); o%uint64(ps) == 0 && tail > 0 {
+		tail-- // a position at the very end of a page is stored as the next page's offset 0
+	}
+	for walked = 0; page != 0 && walked < 4096; walked++ {
+		if free(page) {
+			return page, walked, true
+		}
+		if page == tail {
+			break // pages behind the tail belong to an unfinished flush
+		}
+		pg, err := tx.Page(txfile.PageID(page))
+		if err != nil {
+			return 0, walked, false
+		}
+		b, err := pg.Bytes()
+		if err != nil || len(b) < 8 {
+			return 0, walked, false
+		}
+		page = binary.LittleEndian.Uint64(b[0:])
+	}
+	return 0, walked, false
+}
+
 // readerState reads the (unexported) cursor of a pq.Reader via reflection (diagnostics only).
 func readerState(rd interface{}) string {
 	defer func() { recover() }()
